@@ -51,6 +51,8 @@ impl Decision {
 /// verdict equals the reference verdict.  Returns the (agreed) decision.
 pub fn deliver(ctx: &mut RunCtx, node: &VerifierNode, msg: &Msg, version: PlonkVersion, env: &EnvCfg) -> Result<Decision, Violation> {
     ctx.st.steps += 1;
+    #[cfg(feature = "engine-std")]
+    let _ = dusk_plonk::verif::take_challenge_log();
     let real: Result<Decision, String> = guarded(|| {
         let proof = match Proof::from_slice(&msg.proof) {
             Ok(p) => p,
@@ -61,6 +63,8 @@ pub fn deliver(ctx: &mut RunCtx, node: &VerifierNode, msg: &Msg, version: PlonkV
             Err(e) => Decision::Reject(crate::deploy::err_name(&e)),
         }
     });
+    #[cfg(feature = "engine-std")]
+    let real_challenges = dusk_plonk::verif::take_challenge_log();
     let real = match real {
         Ok(d) => d,
         Err(p) => return Err(Violation::new("panic", format!("verifier panicked on a delivered message: {}", p))),
@@ -74,6 +78,49 @@ pub fn deliver(ctx: &mut RunCtx, node: &VerifierNode, msg: &Msg, version: PlonkV
             None => Verdict::Reject("proof does not decode"),
         }
     };
+    // the transcript itself: every challenge the real verifier squeezed must be the one the
+    // protocol's transcript yields (order and content of everything absorbed before it)
+    #[cfg(feature = "engine-std")]
+    if msg.proof.len() >= crate::channel::PROOF_SIZE && msg.pi.len() == node.rm.pi_rows.len() {
+        if let Some(p) = rm_verify::RefProof::parse(&msg.proof[..crate::channel::PROOF_SIZE]) {
+            let ch = rm_verify::challenges(&node.rm, &p, &msg.pi, to_rm_version(version));
+            let want: [(&[u8], dusk_bls12_381::BlsScalar); 11] = [
+                (b"beta", ch.beta),
+                (b"gamma", ch.gamma),
+                (b"alpha", ch.alpha),
+                (b"range separation challenge", ch.range_sep),
+                (b"logic separation challenge", ch.logic_sep),
+                (b"fixed base separation challenge", ch.fixed_sep),
+                (b"variable base separation challenge", ch.var_sep),
+                (b"z_challenge", ch.z),
+                (b"v_challenge", ch.v),
+                (b"v_w_challenge", ch.v_w),
+                (b"u_challenge", ch.u),
+            ];
+            if !real_challenges.is_empty() {
+                ctx.st.probe("transcripts_compared_challenge_by_challenge");
+                if real_challenges.len() != want.len() {
+                    return Err(Violation::new(
+                        "I-transcript",
+                        format!("the verifier squeezed {} challenges, the protocol's transcript has {}", real_challenges.len(), want.len()),
+                    ));
+                }
+                for (k, ((lbl, got), (wl, wv))) in real_challenges.iter().zip(want.iter()).enumerate() {
+                    if *got != *wv {
+                        return Err(Violation::new(
+                            "I-transcript",
+                            format!(
+                                "challenge #{} ({}) of the real verifier differs from the protocol's transcript (expected label {}): something absorbed before it differs in content or order",
+                                k,
+                                String::from_utf8_lossy(lbl),
+                                String::from_utf8_lossy(wl)
+                            ),
+                        ));
+                    }
+                }
+            }
+        }
+    }
     ctx.st.probe("verify_decisions_mirrored");
     if real.accepted() != rm.accepted() {
         return Err(Violation::new(
